@@ -529,6 +529,30 @@ def run(ctx) -> None:  # noqa: F811
                     "integers", "choice", "randint", "random", "permutation", "shuffle", "normal", "uniform") and \
                     isinstance(c.func.value, _ast.Name) and c.func.value.id in gens:
                 draws.append((n, c))
+    # draws from a generator that is NOT constructed in this call: a generator kept on the object (or handed out by a
+    # method of the object) carries its state from one call to the next
+    DRAWS = ("integers", "choice", "randint", "random", "permutation", "shuffle", "normal", "uniform")
+    for st in _walk(f.node):
+        if not isinstance(st, _ast.Assign) or len(st.targets) != 1 or not isinstance(st.targets[0], _ast.Name):
+            continue
+        nm = st.targets[0].id
+        used_for_draws = any(isinstance(c, _ast.Call) and isinstance(c.func, _ast.Attribute) and c.func.attr in DRAWS
+                             and isinstance(c.func.value, _ast.Name) and c.func.value.id == nm for c in _walk(f.node))
+        if not used_for_draws or nm in gens:
+            continue
+        v = st.value
+        from ..model import dotted as _dotted
+
+        src = _dotted(v.func) if isinstance(v, _ast.Call) else _dotted(v)
+        if src is not None and src.startswith("self."):
+            ctx.violation("R-RNGSTREAM", f"{f.qualname}:generator of the repetition draws", f.loc(st),
+                          f"`{_nt(st)[:60]}` takes the generator of the unit draws from the object instead of constructing "
+                          "it from the seed in this call: its state carries over from one call to the next, so a window "
+                          "generated after the full sequence (or a second build) draws other units than the full "
+                          "sequence has at the same repetitions", key_detail="persistent-generator")
+            return _inner_run_c10(ctx)
+        raise AnalysisError(f"{f.qualname}: the generator `{nm}` of the repetition draws has an origin the analysis "
+                            "does not read")
     ctx.require(len(draws) >= 1, "CrystalPotential.generate_slices: no draw from the seeded generator found")
     for n, c in draws:
         if not n.loops:
